@@ -61,6 +61,137 @@ def _(c):
     c.ensure('digest', val.eq(out, B.blake2(w, list(M), size // 8, True)))
     c.ensure('default-outlen', h.outlen == size // 8)
 
+# ------------------------------------------------------------------ (1b) one-shot from ANY state, for EVERY message (class L)
+# Every attribute that a history can change -- computed from the current AST by pyvc.frame: all names that any method other
+# than __init__ assigns / augments / stores into / mutates, and sub-objects with such state -- is set to an arbitrary value of
+# its shape.  The message is abstract (arbitrary length and content).  update() is replaced by a probe that records the
+# object's state and its arguments: the one-shot call must reach it in exactly the state of a freshly constructed object
+# (after the same reset), with the caller's message and padding=True, and return what it returns.  Hence
+# result(history; M) == result(fresh; M) for every history that acts through these attributes and every M.
+from pyvc import frame
+MARK = b'\xa5\x5a\xc3'
+ONESHOT = {
+    'SHA1': (lambda: sha.SHA1(), {}), 'SHA0': (lambda: sha.SHA1(0), {}), 'SHA224': (lambda: sha.SHA2(224), {}), 'SHA256': (lambda: sha.SHA2(256), {}), 'SHA384': (lambda: sha.SHA2(384), {}),
+    'SHA512': (lambda: sha.SHA2(512), {}), 'SHA512/256': (lambda: sha.SHA2(512, 256), {}), 'MD4': (lambda: md.MD4(), {}), 'MD5': (lambda: md.MD5(), {}),
+    'Blake224': (lambda: blake.Blake(224), {}), 'Blake256': (lambda: blake.Blake(256), {}), 'Blake384': (lambda: blake.Blake(384), {}), 'Blake512': (lambda: blake.Blake(512), {}),
+    'Blake256+salt': (lambda: blake.Blake(256), {'s': 0x1234567}),
+    'Blake2s': (lambda: blake.Blake2(256), {}), 'Blake2b': (lambda: blake.Blake2(512), {}), 'Blake2b+options': (lambda: blake.Blake2(512), {'outlen': 20, 'salt': b'ab', 'pers': b'xyz', 'fanout': 2, 'depth': 3, 'leafl': 5, 'noffset': 7, 'ndepth': 1, 'inner': 9}),
+}
+@obligation(P, 'reset/one-shot-from-any-state', cls='L', sufficient=True, cases={'kind': list(ONESHOT)}, funcs=['crysp.sha.SHA1.__call__', 'crysp.sha.SHA1.initstate', 'crysp.sha.SHA2.initstate', 'crysp.md.MD4.__call__', 'crysp.md.MD4.initstate',
+            'crysp.blake.Blake.__call__', 'crysp.blake.Blake.initstate', 'crysp.blake.Blake2.__call__', 'crysp.blake.Blake2.initstate', 'crysp.blake.Blake2.paramblock', 'crysp.blake.Blake2.treeinit'],
+            note='ALL values of every attribute a history can change (set computed from the AST), abstract message of arbitrary length: update() is entered in the fresh object\'s state with the caller\'s arguments; '
+                 'not covered: changes of the SHAPE of an attribute (list length, Bits size), module-level or class-level state (left to history/enumeration)')
+def _(c):
+    mk, kw = ONESHOT[c.case('kind')]
+    h = mk(); fresh = mk()
+    # the previous call may have used other per-call options
+    if isinstance(h, blake.Blake2): h.initstate(outlen=7, fanout=9, depth=3, inner=2, salt=b'zz')
+    elif isinstance(h, blake.Blake): h.initstate(99)
+    if c.mode != 'sym':
+        done, kept = frame.havoc(c, h)
+        M = c.tail('M')
+        c.ensure('digest', h(M, **kw) == fresh(M, **kw)); return
+    done, kept = frame.havoc(c, h)
+    c.note('havocked', done, kept)
+    seen = {}
+    def probe(I, args, k):
+        seen['state'] = frame.state_of(args[0]); seen['args'] = (args[1:], dict(k)); return (MARK,)
+    c.replace(type(h).update, probe)
+    M = c.tail('M')
+    out = c.call(type(h).__call__, h, M, **kw)
+    # the reference: a freshly constructed object after the reset the one-shot call performs
+    if isinstance(fresh, blake.Blake2): fresh.initstate(**kw)
+    elif isinstance(fresh, blake.Blake): fresh.initstate(kw.get('s', 0))
+    else: fresh.initstate()
+    c.ensure('update-reached', 'state' in seen)
+    if 'state' not in seen: return
+    c.ensure('state-at-update == fresh', frame.same(seen['state'], frame.state_of(fresh)), difference=frame.diff(seen['state'], frame.state_of(fresh)))
+    import inspect
+    a, k = seen['args']
+    bound = inspect.signature(type(fresh).update).bind(fresh, *a, **k); bound.apply_defaults()
+    c.ensure('message-passed-on', bound.arguments.get('M') is M)
+    c.ensure('padding', bound.arguments.get('padding') is True)
+    if 'bitlen' in bound.arguments: c.ensure('no-bit-length', bound.arguments['bitlen'] is None)
+    c.ensure('result-returned', out is MARK or out == MARK)
+    c.ensure('havoc-not-empty', len(done) >= 2)
+
+class _Done:
+    def digest(self): return MARK
+@obligation(P, 'reset/similarity-digests-from-any-state', cls='L', sufficient=True, cases={'kind': ['Nilsimsa', 'TLSH128', 'TLSH256/3']},
+            funcs=['crysp.nilsimsa.Nilsimsa.__call__', 'crysp.nilsimsa.Nilsimsa.reset', 'crysp.tlsh.TLSH.__call__', 'crysp.tlsh.TLSH.reset'],
+            note='as reset/one-shot-from-any-state: ALL values of every attribute a history can change, abstract input of arbitrary length; the first routine that looks at the data is entered in the fresh object\'s state')
+def _(c):
+    k = c.case('kind')
+    mk = (lambda: nilsimsa.Nilsimsa()) if k == 'Nilsimsa' else (lambda: tlsh.TLSH(128)) if k == 'TLSH128' else (lambda: tlsh.TLSH(256, chklen=3))
+    h = mk(); fresh = mk()
+    if c.mode != 'sym':
+        frame.havoc(c, h); M = c.tail('M') * 5
+        c.ensure('digest', h(M) == fresh(M)); return
+    done, kept = frame.havoc(c, h)
+    seen = {}
+    def probe(I, args, kw):
+        seen['state'] = frame.state_of(args[0]); seen['args'] = (args[1:], dict(kw))
+        return (_Done() if k == 'Nilsimsa' else None,)
+    c.replace(nilsimsa.Nilsimsa.update if k == 'Nilsimsa' else tlsh.TLSH.final, probe)
+    M = c.tail('M')
+    out = c.call(type(h).__call__, h, M)
+    fresh.reset()
+    c.ensure('entered', 'state' in seen)
+    if 'state' not in seen: return
+    c.ensure('state-at-entry == fresh', frame.same(seen['state'], frame.state_of(fresh)), difference=frame.diff(seen['state'], frame.state_of(fresh)))
+    c.ensure('data-passed-on', seen['args'][0][0] is M)
+    c.ensure('result', (out == MARK) if k == 'Nilsimsa' else out is None)
+    c.ensure('havoc-not-empty', len(done) >= 3)
+
+@obligation(P, 'reset/skein-from-any-state', cls='L', sufficient=True, opaque=['threefish*'], cases={'kind': ['plain256', 'key512', 'all1024']}, funcs=['crysp.skein.Skein.__call__', 'crysp.skein.Skein._initstate', 'crysp.skein.Skein.update', 'crysp.skein.Skein.output'],
+            note='ALL values of the chaining value G before the call, abstract message of arbitrary length: the message stage is entered with the chaining value of a fresh object, and the output stage runs on what it leaves')
+def _(c):
+    import props.C12 as C12
+    k = c.case('kind')
+    mk = {'plain256': lambda: skein.Skein(256, 256), 'key512': lambda: skein.Skein(512, 384, key=b'secret'), 'all1024': lambda: skein.Skein(1024, 1024, key=b'k' * 9, prs=b'prs', PK=b'pk', kdf=b'kdf', nonce=b'nonce')}[k]
+    h = mk(); fresh = mk()
+    h(b'previous message')
+    if c.mode != 'sym':
+        frame.havoc(c, h); M = c.tail('M')
+        c.ensure('digest', h(M) == fresh(M)); return
+    C12.install_threefish(c)
+    done, kept = frame.havoc(c, h)
+    seen = {}
+    def probe(I, args, kw):
+        if (args[2] if len(args) > 2 else kw.get('T', 'msg')) != 'msg': return NotImplemented
+        seen['state'] = frame.state_of(args[0]); seen['args'] = (args[1:], dict(kw))
+        return (None,)
+    c.replace(skein.Skein.update, probe)
+    M = c.tail('M')
+    out = c.call(skein.Skein.__call__, h, M)
+    c.call(skein.Skein._initstate, fresh)
+    c.ensure('entered', 'state' in seen)
+    if 'state' not in seen: return
+    c.ensure('state-at-message-stage == fresh', frame.same(seen['state'], frame.state_of(fresh)))
+    c.ensure('message-passed-on', seen['args'][0][0] is M)
+    c.ensure('output-of-that-state', val.eq(out, c.call(skein.Skein.output, fresh, fresh.G)))
+    c.ensure('havoc-not-empty', 'G' in done)
+
+STATELESS = {'DES': lambda: des.DES(b'12345678'), 'TDEA': lambda: des.TDEA(bytes(range(24))), 'Serpent': lambda: serpent.Serpent(b'k' * 16),
+             'Threefish': lambda: threefish.Threefish(bytes(32), bytes(16))}
+@obligation(P, 'frame/no-state-to-change', cls='L', sufficient=True, cases={'kind': list(STATELESS)}, funcs=['crysp.des.DES.enc', 'crysp.des.TDEA.enc', 'crysp.serpent.Serpent.enc', 'crysp.threefish.Threefish.enc'],
+            note='frame condition read off the current AST: no method other than __init__ (of the class or its repository bases) assigns, augments, stores into or calls a mutating method on any attribute of self, '
+                 'and no attribute holds a repository object with such state -- so a call cannot depend on earlier calls on the instance; module-level and class-level state is left to history/enumeration')
+def _(c):
+    kind = c.case('kind'); o = STATELESS[kind]()
+    if c.mode != 'sym':
+        # replay of a failed frame condition: the property itself on a seeded random history
+        import random
+        k = kinds()[kind]; rng = random.Random(c.int('history', 0, 1 << 30))
+        for a in [rng.randrange(len(k['alphabet'])) for _ in range(4)]: run(k['alphabet'][a], o)
+        for pi, probe in enumerate(k['probe']):
+            c.ensure('probe %d' % pi, val_digest(run(probe, o)) == val_digest(run(probe, k['make']())))
+        return
+    c.int('history', 0, 1 << 30)
+    c.ensure('no-attribute-written-outside-__init__', sorted(frame.mutable_attrs(type(o))) == [], written=sorted(frame.mutable_attrs(type(o))))
+    c.ensure('no-stateful-sub-object', [a for a, v in vars(o).items() if frame.has_mutable_state(v)] == [])
+    c.ensure('has-attributes', len(vars(o)) >= 1)
+
 # ------------------------------------------------------------------ (2) history enumeration
 def kinds():
     K = {}
